@@ -110,7 +110,7 @@ RULES = {
     'R8': 'Q.get(i) >= P.get(i) on Option<&T>  ->  *Q.get(i).unwrap() >= *P.get(i).unwrap() (equal when both are Some; the unwraps become obligations)',
     'R9': 'in constructors: assert!(c, msg) -> if !(c) { ctor_reject(); }  (a constructor that panics has not accepted its arguments; ctor_reject() never returns)',
     'R10': 'for [&]v in Q.iter() { B }  ->  for r10_i in 0..Q.len() { let v = [&]Q[r10_i]; B }',
-    'R11': 'for x in (A..B).rev() { S }  ->  for r11_k in A..B { let x = B - 1 - (r11_k - A); S }',
+    'R11': 'for x in (A..B).rev() { S }  ->  for r11_k in A..B { let x = B - 1 - (r11_k - A); S }   (and (A..=B).rev() -> A..=B with x = B - (r11_k - A))',
     'R12': 'a private helper method without a contract and without `return` is inlined at its call sites: f(a, b) -> { let r12_0 = (a); let r12_1 = (b); let p = r12_0; let q = r12_1; BODY } (modular verification cannot see through an uncontracted call)',
     'M4': '#[derive(Clone)] is expanded to the field-wise clone it generates (view fields: clone_view, Copy scalars: copy, Vec/VecDeque of scalars: trusted deque_clone/vec_clone); a hand-written Clone impl is left unverified and reported',
     'R13': 'guard-style early returns `if c { return e; }` of an inlined helper become `if c { e } else { rest }`',
@@ -154,6 +154,11 @@ def rewrite_body(s, applied):
             cl = match_close(s, op, '(', ')')
             tail = re.match(r'\.rev\(\)\s*\{', s[cl + 1:])
             inner = s[op + 1:cl]
+            if tail and '..=' in inner:
+                a, b = inner.split('..=', 1)
+                s = s[:m.start()] + 'for r11_k in %s..=%s { let %s = %s - (r11_k - %s);' % (a.strip(), b.strip(), m.group(1), b.strip(), a.strip()) + s[cl + 1 + tail.end():]
+                applied.add('R11'); found = True
+                break
             if tail and '..' in inner and '..=' not in inner:
                 a, b = inner.split('..', 1)
                 s = s[:m.start()] + 'for r11_k in %s..%s { let %s = %s - 1 - (r11_k - %s);' % (a.strip(), b.strip(), m.group(1), b.strip(), a.strip()) + s[cl + 1 + tail.end():]
